@@ -3,6 +3,7 @@ package dockerlog
 
 import (
 	"context"
+	"slices"
 	"strconv"
 	"strings"
 
@@ -11,6 +12,7 @@ import (
 	"github.com/docker/docker/client"
 	"github.com/go-faster/errors"
 	"go.opentelemetry.io/collector/pdata/pcommon"
+	"golang.org/x/exp/maps"
 	"golang.org/x/sync/errgroup"
 
 	"github.com/tdakkota/docker-logql/internal/iterators"
@@ -161,8 +163,12 @@ func getLabels(ctr types.Container) containerLabels {
 		"container_state":    ctr.State,
 		"container_status":   ctr.Status,
 	}
-	for label, value := range ctr.Labels {
-		labels[otelstorage.KeyToLabel(label)] = value
+	// Several keys may have the same label name: iterate in sorted order,
+	// so the result does not depend on map iteration order.
+	keys := maps.Keys(ctr.Labels)
+	slices.Sort(keys)
+	for _, label := range keys {
+		labels[otelstorage.KeyToLabel(label)] = ctr.Labels[label]
 	}
 	return containerLabels{
 		labels: labels,
